@@ -379,18 +379,40 @@ def r4_pad_before_store(ctx):
                 subs.append((nd, x))
     if not subs:
         raise AnalysisError('Segment.get: subscripts not found')
+    seg_len = ctx.func('segment', 'Segment.__len__')
+    lr = [r_ for r_ in ast.walk(seg_len) if isinstance(r_, ast.Return)]
+    self_measures = None
+    if len(lr) == 1 and isinstance(lr[0].value, ast.Call) and path_of(lr[0].value.func) == 'len' and lr[0].value.args:
+        self_measures = norm(lr[0].value.args[0])
+
+    def measured(e):
+        """the container whose length the expression is, or None"""
+        c = None
+        if isinstance(e, ast.Call) and path_of(e.func) == 'len' and len(e.args) == 1:
+            c = norm(e.args[0])
+        elif isinstance(e, ast.Call) and isinstance(e.func, ast.Attribute) and e.func.attr == '__len__' and not e.args:
+            c = norm(e.func.value)
+        if c == 'self':
+            c = self_measures
+        return c
     for nd, x in subs:
         idx = norm(x.slice)
         cont = norm(x.value)
         guarded = False
+        wrong = None
         for d in dom[nd.id]:
             t = g.nodes[d]
             if t.kind == 'test' and isinstance(t.ast, ast.Compare) and norm(t.ast.left) == idx and isinstance(t.ast.ops[0], ast.GtE):
                 # `idx >= len` test whose T branch returns: we must be on the F side
                 if any(l == 'F' and (s.id in dom[nd.id] or s.id == nd.id) for s, l in t.succ):
-                    guarded = True
+                    mc = measured(t.ast.comparators[0])
+                    if mc is None or mc == cont:
+                        guarded = True
+                    else:
+                        wrong = 'the index %s into %s is tested against the length of %s' % (idx, cont, mc)
         yield Ob('segment:Segment.get %s[%s] tested against the length' % (cont, idx), guarded, ctx.floc(fn, x),
-                 '' if guarded else 'subscript without a dominating `%s >= length -> return None` test' % idx)
+                 '' if guarded else (wrong + ': a position that exists reads as None, one that does not raises IndexError' if wrong else
+                                     'subscript without a dominating `%s >= length -> return None` test' % idx))
 
 
 def r5_map_paths(ctx):
